@@ -1,5 +1,7 @@
 """C21 — accepted lazy connections are honoured at run time (pydra/utils/typing.py TypeParser.check_type vs
 TypeParser.coerce).  Types, values, encoders and the world of temp files are shared with c20.py."""
+import json
+
 from .lib import coqio
 from .lib.runner import Outcome, Failure
 from . import c20
@@ -234,6 +236,9 @@ def run(ctx):
 def replay(ctx, payload):
     from pydra.utils.typing import TypeParser
     generate_coq(ctx)
+    if "case" not in payload:          # a no-failing-input-found report: nothing to re-run, show it
+        print(json.dumps(payload, indent=1)[:4000])
+        return 0
     c = payload["case"]
     world = World()
     try:
